@@ -190,6 +190,20 @@ theorem undetected_when_mtime_kept (d : Disk) (p : Part) (st : PStamp) (f : File
     (hf : AL.get? d.parts p = some f) (ht : f.mtime = st.time) : partChanged d p st = false := by
   simp [partChanged, hf, ht]
 
+/-- COMPLETE, glyph files, from a font in step.  Another program rewrites the file of a loaded,
+stamped glyph with other bytes and another modification time.  Then the report is the quiet report
+except for exactly one layer entry, whose `modified` is exactly that glyph (info unchanged, nothing
+added, nothing deleted); every top-level entry, every other layer, images and data: nothing. -/
+theorem detect_complete_glyph (s : State) (h : Synced s) (ln gn : String) (l : MLayer) (g : MGlyph) (st : File)
+    (dl : DLayer) (b : Blob) (t : Time)
+    (hord : ln ∈ s.font.order) (hl : getLayer s ln = some l) (hdl : AL.get? s.disk.layers ln = some dl)
+    (hg : AL.get? l.glyphs gn = some g) (hst : g.stamp = some st) (hk : gn ∈ l.keys)
+    (hnodup : (AL.keys l.glyphs).Nodup) (hb : b ≠ st.blob) (ht : t ≠ st.mtime) :
+    report { s with disk := { s.disk with
+        layers := AL.set s.disk.layers ln { dl with glifs := AL.set dl.glifs gn ⟨b, t⟩ } } } =
+      { quietReport s with modified := [(ln, ⟨false, [gn], [], []⟩)] } :=
+  report_after_xglyph_write h hord hl hdl hg hst hk hnodup hb ht
+
 /-- COMPLETE, glyph files: a loaded, stamped glyph whose file now has other bytes and another
 modification time than the stamp is in `modified`. -/
 theorem detect_complete_glyph_modified (d : Disk) (ln gn : String) (l : MLayer) (g : MGlyph) (f st : File)
